@@ -64,8 +64,9 @@ def extract(objs, src):
             q = [p.get("name") for p in parents if p.get("kind") in ("CXXRecordDecl", "ClassTemplateSpecializationDecl", "ClassTemplateDecl") and p.get("name")]
             if q and q[-1] == base:
                 q = q[:-1]
-            qn = "::".join(dict.fromkeys(q + [name]))
-            rec = dict(id=node["id"], name=qn, bases=[b["type"]["qualType"] for b in node.get("bases", [])], fields=[],
+            qn = "::".join(dict.fromkeys(q + [base]))           # the name every translator keys classes by
+            spec = "::".join(dict.fromkeys(q + [name]))         # instantiations told apart (schema translator only)
+            rec = dict(id=node["id"], name=qn, spec=spec, bases=[b["type"]["qualType"] for b in node.get("bases", [])], fields=[],
                        template=any(p.get("kind") == "ClassTemplateDecl" for p in parents), methods={})
             for c in node.get("inner", []) or []:
                 if c.get("kind") == "FieldDecl":
@@ -91,7 +92,7 @@ def load(repo=None):
     key = C.repo_hash(repo)
     os.makedirs(C.CACHE, exist_ok=True)
     tag = hashlib.sha256(os.path.realpath(repo).encode()).hexdigest()[:6]
-    cache = os.path.join(C.CACHE, f"ast-{tag}-{key}-v4.pkl")
+    cache = os.path.join(C.CACHE, f"ast-{tag}-{key}-v5.pkl")
     if os.path.exists(cache):
         return pickle.load(open(cache, "rb"))
     srcs = sorted(os.path.join(repo, "src", f) for f in os.listdir(os.path.join(repo, "src")) if f.endswith(".cpp"))
@@ -114,14 +115,18 @@ def load(repo=None):
             if m["body"] is None or par is None or par not in p["classes"]:
                 continue
             cname = p["classes"][par]["name"]
-            meth.append(dict(cls=cname, name=m["name"], body=m["body"], file=m["file"], type=m["type"], params=m.get("params", []),
+            meth.append(dict(cls=cname, spec=p["classes"][par]["spec"], name=m["name"], body=m["body"], file=m["file"], type=m["type"],
+                             params=m.get("params", []),
                              ids={mm["id"]: p["classes"][decl_parent[mm["id"]]]["name"] for mm in p["methods"]
                                   if decl_parent.get(mm["id"]) in p["classes"]}))
     # method bodies: keep one per (class, name, type)
-    seen = {}
+    seen, seen_spec = {}, {}
     for m in meth:
         seen.setdefault((m["cls"], m["name"], m["type"]), m)
-    out = dict(classes=cls_by_name, methods=list(seen.values()))
+        seen_spec.setdefault((m["spec"], m["name"], m["type"]), m)
+    # `methods`: one body per (class, name, type) with template instantiations under the template's name (what the reference,
+    # write-mutation, stream and signature translators work from); `methods_spec`: one per instantiation (wire schemas)
+    out = dict(classes=cls_by_name, methods=list(seen.values()), methods_spec=list(seen_spec.values()))
     pickle.dump(out, open(cache, "wb"))
     old = sorted((os.path.join(C.CACHE, f) for f in os.listdir(C.CACHE) if f.startswith("ast-")), key=os.path.getmtime)
     for f in old[:-3]:
